@@ -213,7 +213,11 @@ def darg_of(case):
     if dm == "missing":
         return {"rel": "nowhere", "abs": "@BASE@/nowhere", "nested": "out/nowhere"}.get(form, "nowhere")
     return {"rel": "out", "dotrel": "./out", "slash": "out/", "nested": "sub/out", "abs": "@BASE@/elsewhere/comp", "dot": ".",
-            "dotdot": "../cwd/out", "symlink": "linkdir", "symlink-abs": "@BASE@/cwd/linkdir"}[form]
+            "dotdot": "../cwd/out", "symlink": "linkdir", "symlink-abs": "@BASE@/cwd/linkdir",
+            # a directory literally called `~` (a quoted tilde is not the home directory: seeded change C19-11), and a relative
+            # `..` target from a working directory that was entered through a symbolic link, with the logical $PWD a shell
+            # exports after `cd link` (the operating system's `..` is the physical parent: seeded change C19-10)
+            "tilde": "~/comp", "tilde-only": "~", "linkcwd": "../out2"}[form]
 
 
 def drel_of(case):
@@ -224,7 +228,8 @@ def drel_of(case):
     if dm == "missing":
         return {"rel": "cwd/nowhere", "abs": "nowhere", "nested": "cwd/out/nowhere"}.get(form, "cwd/nowhere")
     return {"rel": "cwd/out", "dotrel": "cwd/out", "slash": "cwd/out", "nested": "cwd/sub/out", "abs": "elsewhere/comp", "dot": "cwd",
-            "dotdot": "cwd/out", "symlink": "elsewhere/real", "symlink-abs": "elsewhere/real"}[form]
+            "dotdot": "cwd/out", "symlink": "elsewhere/real", "symlink-abs": "elsewhere/real",
+            "tilde": "cwd/~/comp", "tilde-only": "cwd/~", "linkcwd": "cwd/out2"}[form]
 
 
 def argv_of(case, base):
@@ -255,7 +260,7 @@ def gen_cases(ctx, printed=None):
                 form = "abs" if dm == "populated" else "rel"
                 cases.append(mk_case(f, p, dm, form, plan=populate_plan(r, printed) if dm == "populated" else None))
     # 2. spelling variants of the accepted shapes (and of both/neither), seeded
-    forms = ["rel", "dotrel", "slash", "nested", "abs", "dot", "dotdot", "symlink", "symlink-abs"]
+    forms = ["rel", "dotrel", "slash", "nested", "abs", "dot", "dotdot", "symlink", "symlink-abs", "tilde", "tilde-only", "linkcwd"]
     envs = [{}, {}, {"NO_COLOR": "1"}, {"TERM": "dumb"}, {"TERM": "xterm-256color"}, {"TERM": "xterm-256color", "NO_COLOR": "1"}]
     # a temporary directory on ANOTHER file system than the target (seeded change C19-8: the script staged in $TMPDIR and renamed
     # into place): imdl does not use TMPDIR, so where it points cannot matter
@@ -269,6 +274,20 @@ def gen_cases(ctx, printed=None):
         if other:
             cases.append(mk_case(s_, None, "empty", "rel", kind="spelling", env={"TMPDIR": other}))
     cases.append(mk_case(None, None, "empty", "symlink", kind="spelling", env={}))
+    for form in ("tilde", "tilde-only", "linkcwd"):
+        cases.append(mk_case(SHELLS[len(form) % len(SHELLS)], None, "empty", form, kind="spelling", env={}))
+        cases.append(mk_case(None, SHELLS[(len(form) + 2) % len(SHELLS)], "populated", form, kind="spelling", env={},
+                             plan=populate_plan(r, printed)))
+        cases.append(mk_case(None, None, "empty", form, kind="spelling", env={}))
+    # all five scripts with hardly any spare file descriptor: one destination at a time is enough (seeded change C19-12: every
+    # destination opened before the first is written)
+    for lim in (7, 5):
+        c = mk_case(None, None, "empty", "rel", kind="spelling", env={})
+        c["nofile"] = lim
+        cases.append(c)
+        c = mk_case(None, None, "populated", "abs", kind="spelling", env={}, plan=populate_plan(r, printed))
+        c["nofile"] = lim
+        cases.append(c)
     if other:
         cases.append(mk_case(None, None, "empty", "rel", kind="spelling", env={"TMPDIR": other}))
     for _ in range(ctx.n(120, 2500)):
@@ -351,7 +370,13 @@ def execute(ctx, root, case):
     before = snapshot(base)
     argv = argv_of(case, base)
     env = dict(ENV0) if case["kind"] != "spelling" else dict(case["env"])
-    rc, out, err = ctx.imdl(argv, cwd=cwd, env=env)
+    run_cwd = cwd
+    if case["dirform"] == "linkcwd":
+        os.symlink(os.path.join("..", "cwd", "sub"), os.path.join(base, "elsewhere", "cwdlink"))
+        run_cwd = os.path.join(base, "elsewhere", "cwdlink")
+        before = snapshot(base)
+    env["PWD"] = run_cwd
+    rc, out, err = ctx.imdl(argv, cwd=run_cwd, env=env, nofile=case.get("nofile"))
     after = snapshot(base)
     shutil.rmtree(base, ignore_errors=True)
     return {"argv": argv, "rc": rc, "stdout": out, "stderr": err, "before": before, "after": after, "drel": drel}
